@@ -269,12 +269,21 @@ func (n *node) ChildrenByType(match NodeType) []Node {
 		for _, nd := range n.Children() {
 			switch nd.Type() {
 			case NodeContainer, NodeLeaf, NodeLeafList, NodeList:
+				// The implicit case belongs where the node it wraps
+				// belongs (an augment of another module, or a uses in
+				// another module, may have put it into this choice),
+				// as a case written out around it would.
+				tree, useTree := n.tree, n.useTree
+				if wrapped, ok := nd.(*node); ok && wrapped.tree != nil {
+					tree, useTree = wrapped.tree, wrapped.useTree
+				}
 				newnd := newNodeByType(NodeCase,
-					n.tree,
+					tree,
 					item{pos: nd.position(), val: "case"},
 					nd.Name(),
 					[]Node{nd},
 					&Scope{tenv: n.tenv, genv: n.genv}, nil)
+				newnd.useTree = useTree
 				n.ReplaceChild(nd, newnd)
 			}
 		}
